@@ -133,8 +133,14 @@ def ctl_term(c):
         wr = [S("%s/%s" % (KIND_OF_RESOURCE.get(w["resource"], w["resource"]), w["key"])) for w in st["writes"]]
         o = {"hosts": st["hosts"], "lhosts": st["lhosts"], "res": st["res"]}
         ve = st.get("verr") or {}
-        out.append("(mkCtl %s %s %s %s %s)" % (C.cq_list(evs), C.cq_list(wr), obs(o, full=False), C.cq_bool(ve.get("expected", False)), C.cq_bool(ve.get("reported", False))))
-    return C.cq_list(out)
+        pr = st.get("probe") or {}
+        probe = 0 if not pr.get("kind") else (1 if pr.get("delivered") else 2)
+        out.append("(mkCtl %s %s %s %s %s %d)" % (C.cq_list(evs), C.cq_list(wr), obs(o, full=False), C.cq_bool(ve.get("expected", False)), C.cq_bool(ve.get("reported", False)), probe))
+    ld = c.get("leader") or {"writes": [], "policies": []}
+    pol_class = {p["key"]: p["class"] for p in ld["policies"]}
+    lw = [S("%s/%s" % (KIND_OF_RESOURCE.get(w["resource"], w["resource"]), w["key"])) for w in ld["writes"] if w["resource"] != "policies"]
+    pw = ["(%s, %s)" % (S(w["key"]), S(pol_class.get(w["key"], "?unknown"))) for w in ld["writes"] if w["resource"] == "policies"]
+    return "%s %s %s" % (C.cq_list(out), C.cq_list(lw), C.cq_list(pw))
 
 
 def generate(run, n, tag="arb", ctl=False):
